@@ -7,6 +7,30 @@ namespace CV.Res
 
 /-! ### bookkeeping lists -/
 
+theorem lookup_upsert' (r : Res) (rows : Rows) (k : Bytes) :
+    lookup k (upsert r rows) = if idKey r.id = k then some r else lookup k rows := by
+  induction rows with
+  | nil => simp [upsert, lookup]
+  | cons x xs ih =>
+    simp only [upsert]
+    split
+    · simp only [lookup]; grind
+    · split
+      · simp only [lookup]; try grind
+      · simp only [lookup, ih]; try grind
+
+theorem lookup_remove' (k k' : Bytes) (rows : Rows) :
+    lookup k' (remove k rows) = if k' = k then none else lookup k' rows := by
+  induction rows with
+  | nil => simp [remove, lookup]
+  | cons x xs ih =>
+    simp only [remove] at ih ⊢
+    simp only [List.filter_cons]
+    split
+    · simp only [lookup, ih]; grind
+    · simp only [lookup, ih]; grind
+
+
 theorem lookup_some_key {k : Bytes} {rows : Rows} {r : Res} (h : lookup k rows = some r) : idKey r.id = k := by
   induction rows with
   | nil => simp [lookup] at h
@@ -671,5 +695,536 @@ theorem winv_watchNext {w : World} (h : WInv w) (i : Nat) : WInv (w.watchNext i)
             rw [q1, heq', expected_sameId hid']
             exact hwi.dead hrel
         · exact h.watches x hx
+
+/-! ### `WatchList` -/
+
+theorem liveCount_append_one (ws : List Watch) (a : Watch) (k : Bytes) :
+    liveCount (ws ++ [a]) k = liveCount ws k + (if (!a.released && decide (a.subj = k)) = true then 1 else 0) := by
+  simp only [liveCount, List.filter_append, List.length_append, List.filter_cons, List.filter_nil]
+  split <;> simp
+
+theorem liveCount_zero {ws : List Watch} {k : Bytes} (h : ∀ x ∈ ws, x.released = false → x.subj ≠ k) :
+    liveCount ws k = 0 := by
+  simp only [liveCount, List.length_eq_zero_iff, List.filter_eq_nil_iff]
+  intro x hx
+  cases hr : x.released with
+  | true => simp
+  | false => simp [h x hx hr]
+
+theorem snapshotBatch_guard (db : DB) (sq : Query) (h : 0 < db.evIdx) : guardSkips 0 (snapshotBatch db sq) = false := by
+  simp only [snapshotBatch]
+  cases hl : list db.rows sq with
+  | nil => simp [guardSkips]; omega
+  | cons r rs => simp [guardSkips]; omega
+
+/-- a watch's invariant only looks at the cache and the buffer of its own subject entry -/
+theorem watchInv_subs_congr {disp log : List Ev} {subs subs' : List Sub} {x : Watch}
+    (h : WatchInv disp log subs x)
+    (hs : x.released = false → ∀ s, findSub x.subj subs = some s →
+      ∃ s', findSub x.subj subs' = some s' ∧ s'.cache = s.cache ∧ s'.buf = s.buf) :
+    WatchInv disp log subs' x := by
+  refine ⟨h.stRel, h.gP, h.gDP, h.gDd, ?_, h.dead⟩
+  intro hr
+  obtain ⟨s, c, hf, hc, e1, e2, e3, hpos, hsn, heq⟩ := h.live hr
+  obtain ⟨s', hf', hc', hb'⟩ := hs hr s hf
+  exact ⟨s', c, hf', by rw [hc', hc], e1, e2, e3, by rw [hb']; exact hpos, hsn, by rw [hb']; exact heq⟩
+
+theorem disp_length (w : World) (h : WInv w) : w.disp.length = w.log.length - w.queue.length := by
+  obtain ⟨d, hd⟩ := h.qsuf
+  rw [disp_eq d hd, hd]; simp
+
+theorem winv_watchOpen {w : World} (h : WInv w) (q : Query) : WInv (w.watchOpen q).1 := by
+  unfold World.watchOpen
+  generalize hsub : q.subject = ks
+  obtain ⟨key, sq⟩ := ks
+  simp only []
+  cases hf : findSub key w.subs with
+  | some s =>
+    -- the subject has a buffer, hence (restore-free) a cached snapshot
+    have hsmem := (findSub_some hf).1
+    have hskey : s.key = key := (findSub_some hf).2
+    have hsi := h.subs s hsmem
+    obtain ⟨c, hc, hok⟩ := hsi.cache
+    simp only [hc]
+    generalize hs' : ({ s with refs := s.refs + 1, cache := some c } : Sub) = sub'
+    have hk' : sub'.key = key := by rw [← hs']; exact hskey
+    have hb' : sub'.buf = s.buf := by rw [← hs']
+    have hc' : sub'.cache = some c := by rw [← hs']
+    have hr' : sub'.refs = s.refs + 1 := by rw [← hs']
+    generalize hw0 : (Watch.mk q key [] (some c.batch) c.pos WState.opened false c.gD c.gP c.gSq []) = wt0
+    have hlive0 : ∀ k, (!wt0.released && decide (wt0.subj = k)) = decide (key = k) := by intro k; rw [← hw0]; simp
+    refine ⟨h.rows, h.evIdx, h.qsuf, h.logIdx, nodup_setSub h.keys, ?_, ?_⟩
+    · intro x hx
+      show SubInv w.disp w.log (w.watches ++ [wt0]) x
+      rcases mem_setSub_nodup h.keys hx with rfl | ⟨hxm, hxk⟩
+      · refine ⟨⟨c, hc', ⟨by rw [hb']; exact hok.pos, hok.gD, hok.gDP, hok.gP, by rw [hb', hk', ← hskey]; exact hok.buf, hok.batch⟩⟩,
+          by rw [hb']; exact hsi.bufOk, ?_⟩
+        rw [liveCount_append_one, hlive0, hk', hr']
+        have := hsi.refs; rw [hskey] at this
+        simp; omega
+      · have hx := h.subs x hxm
+        refine ⟨hx.cache, hx.bufOk, ?_⟩
+        rw [liveCount_append_one, hlive0]
+        have : key ≠ x.key := by rw [← hk']; exact fun e => hxk e.symm
+        simp [this]; exact hx.refs
+    · intro x hx
+      show WatchInv w.disp w.log (setSub sub' w.subs) x
+      rcases List.mem_append.mp hx with hx | hx
+      · apply watchInv_subs_congr (h.watches x hx)
+        intro _ s0 hs0
+        rw [findSub_setSub, hk']
+        split
+        · next e => rw [← e, hf] at hs0; cases hs0; exact ⟨sub', rfl, by rw [hc', hc], hb'⟩
+        · exact ⟨s0, hs0, rfl, rfl⟩
+      · simp only [List.mem_singleton] at hx
+        subst hx
+        rw [← hw0]
+        refine ⟨Or.inl ⟨rfl, rfl⟩, hok.gP, hok.gDP, hok.gD, ?_, by intro hr; cases hr⟩
+        intro _
+        refine ⟨sub', c, by rw [findSub_setSub, hk']; simp, hc', rfl, rfl, rfl, by rw [hb']; exact hok.pos, ?_, ?_⟩
+        · intro b hb; simp only [Option.some.injEq] at hb; subst hb
+          rw [hok.batch]; exact snapshotBatch_guard _ _ (by simp)
+        · simp [Watch.stream, hb']
+  | none =>
+    simp only []
+    have hnone := findSub_none hf
+    obtain ⟨c, hc0⟩ : ∃ c : Cache, c = Cache.mk (snapshotBatch w.db sq) (splicePos [] w.db.evIdx)
+        (w.log.length - w.queue.length) w.log.length sq := ⟨_, rfl⟩
+    generalize hs' : (Sub.mk key [] (0 + 1) (some (Cache.mk (snapshotBatch w.db sq) (splicePos [] w.db.evIdx)
+        (w.log.length - w.queue.length) w.log.length sq))) = sub'
+    have hk' : sub'.key = key := by rw [← hs']
+    have hb' : sub'.buf = [] := by rw [← hs']
+    have hc' : sub'.cache = some c := by rw [← hs', hc0]
+    have hr' : sub'.refs = 1 := by rw [← hs']
+    have hcpos : c.pos = 0 := by rw [hc0]; simp [splicePos]
+    have hcgD : c.gD = w.disp.length := by rw [hc0, disp_length w h]
+    have hcgP : c.gP = w.log.length := by rw [hc0]
+    have hcb : c.batch = snapshotBatch ⟨replay (w.log.take c.gP), c.gP + 2⟩ c.gSq := by
+      rw [hcgP, List.take_length, ← h.rows, ← h.evIdx, hc0]
+    generalize hw0 : (Watch.mk q key [] (some (snapshotBatch w.db sq)) (splicePos [] w.db.evIdx) WState.opened false
+        (w.log.length - w.queue.length) w.log.length sq []) = wt0
+    have hw0' : wt0 = Watch.mk q key [] (some c.batch) c.pos WState.opened false c.gD c.gP c.gSq [] := by
+      rw [← hw0, hc0]
+    have hlive0 : ∀ k, (!wt0.released && decide (wt0.subj = k)) = decide (key = k) := by intro k; rw [← hw0]; simp
+    have hok : CacheOk w.disp w.log sub' c := by
+      refine ⟨by rw [hcpos]; omega, by rw [hcgD]; exact Nat.le_refl _, ?_, by rw [hcgP]; exact Nat.le_refl _, ?_, hcb⟩
+      · rw [hcgD, hcgP, disp_length w h]; omega
+      · rw [hb', hcgD]; simp
+    have hnolive : ∀ x ∈ w.watches, x.released = false → x.subj ≠ key := by
+      intro x hx hr e
+      obtain ⟨s, _, hfs, _⟩ := (h.watches x hx).live hr
+      rw [e, hf] at hfs; cases hfs
+    refine ⟨h.rows, h.evIdx, h.qsuf, h.logIdx, nodup_setSub h.keys, ?_, ?_⟩
+    · intro x hx
+      show SubInv w.disp w.log (w.watches ++ [wt0]) x
+      rcases mem_setSub_nodup h.keys hx with rfl | ⟨hxm, hxk⟩
+      · refine ⟨⟨c, hc', hok⟩, by rw [hb']; simp, ?_⟩
+        rw [liveCount_append_one, hlive0, hk', hr', liveCount_zero hnolive]
+        simp
+      · have hx := h.subs x hxm
+        refine ⟨hx.cache, hx.bufOk, ?_⟩
+        rw [liveCount_append_one, hlive0]
+        have : key ≠ x.key := fun e => hnone x hxm e.symm
+        simp [this]; exact hx.refs
+    · intro x hx
+      show WatchInv w.disp w.log (setSub sub' w.subs) x
+      rcases List.mem_append.mp hx with hx | hx
+      · apply watchInv_subs_congr (h.watches x hx)
+        intro hr s0 hs0
+        rw [findSub_setSub, hk']
+        split
+        · next e => exact absurd e.symm (hnolive x hx hr)
+        · exact ⟨s0, hs0, rfl, rfl⟩
+      · simp only [List.mem_singleton] at hx
+        subst hx
+        rw [hw0']
+        refine ⟨Or.inl ⟨rfl, rfl⟩, hok.gP, hok.gDP, hok.gD, ?_, by intro hr; cases hr⟩
+        intro _
+        refine ⟨sub', c, by rw [findSub_setSub, hk']; simp, hc', rfl, rfl, rfl, by rw [hb', hcpos]; simp, ?_, ?_⟩
+        · intro b hb; simp only [Option.some.injEq] at hb; subst hb
+          rw [hcb]; exact snapshotBatch_guard _ _ (by simp)
+        · simp [Watch.stream, hb']
+
+/-! ### `Watch.Close` -/
+
+theorem liveCount_setAt_close {ws : List Watch} {i : Nat} {a b : Watch} (k : Bytes) (h : ws[i]? = some a)
+    (ha : a.released = false) (hb : b.released = true) :
+    liveCount (setAt ws i b) k + (if a.subj = k then 1 else 0) = liveCount ws k := by
+  have := count_setAt (fun wt => !wt.released && decide (wt.subj = k)) (b := b) h
+  simp only [liveCount]
+  simp only [ha, hb] at this
+  split <;> simp_all
+
+theorem liveCount_pos {ws : List Watch} {x : Watch} {k : Bytes} (hx : x ∈ ws) (hr : x.released = false)
+    (hk : x.subj = k) : 0 < liveCount ws k := by
+  simp only [liveCount]
+  apply List.length_pos_of_mem (a := x)
+  simp [List.mem_filter, hx, hr, hk]
+
+theorem setAt_self {α : Type} {l : List α} {i : Nat} {a : α} (h : l[i]? = some a) : setAt l i a = l := by
+  induction l generalizing i with
+  | nil => rfl
+  | cons y ys ih =>
+    cases i with
+    | zero => simp only [List.getElem?_cons_zero, Option.some.injEq] at h; subst h; rfl
+    | succ i => simp only [List.getElem?_cons_succ] at h; simp [setAt, ih h]
+
+theorem mem_dropSub {x : Sub} {k : Bytes} {ss : List Sub} (h : x ∈ dropSub k ss) : x ∈ ss ∧ x.key ≠ k := by
+  simpa [dropSub, List.mem_filter] using h
+
+theorem nodup_dropSub {k : Bytes} {ss : List Sub} (h : (ss.map (·.key)).Nodup) : ((dropSub k ss).map (·.key)).Nodup := by
+  simp only [dropSub]
+  exact h.sublist ((List.filter_sublist).map _)
+
+/-- a live watch, together with the invariant of its subject entry, has received exactly a prefix of
+    what it is entitled to, and everything else is still in front of it -/
+theorem live_expected {disp log : List Ev} {wt : Watch} {s : Sub} {c : Cache}
+    (hk : s.key = wt.subj) (hok : CacheOk disp log s c) (e1 : wt.gD = c.gD) (e2 : wt.gP = c.gP) (e3 : wt.gSq = c.gSq)
+    (heq : wt.gDelivered ++ vis wt.q (wt.stream s.buf) = vis wt.q (c.batch ++ (s.buf.drop c.pos).flatten)) :
+    wt.gDelivered ++ vis wt.q (wt.stream s.buf) = expected disp log wt := by
+  rw [heq, vis_append, hok.buf, hok.batch, expected, e1, e2, e3, hk]
+
+theorem watchClose_none (w : World) (i : Nat) (h : w.watches[i]? = none) : (w.watchClose i).1 = w := by
+  simp [World.watchClose, h]
+
+theorem winv_watchClose {w : World} (h : WInv w) (i : Nat) : WInv (w.watchClose i).1 := by
+  cases hget : w.watches[i]? with
+  | none => rw [watchClose_none w i hget]; exact h
+  | some wt =>
+    have hmem : wt ∈ w.watches := List.mem_of_getElem? hget
+    have hwi := h.watches wt hmem
+    simp only [World.watchClose, hget]
+    rcases hwi.stRel with ⟨hopen, hrel⟩ | ⟨hunsub, hrel⟩
+    · -- a live watch is closed
+      obtain ⟨s, c, hf, hc, e1, e2, e3, hpos, hsn, heq⟩ := hwi.live hrel
+      have hsmem := (findSub_some hf).1
+      have hskey : s.key = wt.subj := (findSub_some hf).2
+      have hsi := h.subs s hsmem
+      obtain ⟨c', hc', hok⟩ := hsi.cache
+      obtain rfl : c' = c := by rw [hc] at hc'; cases hc'; rfl
+      simp only [hopen, hrel, hf, if_true, Bool.false_eq_true, if_false]
+      generalize hw' : ({ wt with st := WState.unsub, released := true } : Watch) = wt'
+      have hr' : wt'.released = true := by rw [← hw']
+      have hcount := fun k => liveCount_setAt_close (b := wt') k hget hrel hr'
+      have hdead : WatchInv w.disp w.log (if s.refs ≤ 1 then dropSub s.key w.subs else setSub { s with refs := s.refs - 1 } w.subs) wt' := by
+        refine ⟨Or.inr ⟨by rw [← hw'], hr'⟩, by rw [← hw']; exact hwi.gP, by rw [← hw']; exact hwi.gDP,
+          by rw [← hw']; exact hwi.gDd, (by intro hr; rw [hr'] at hr; cases hr), ?_⟩
+        intro _
+        have hexp := live_expected hskey hok e1 e2 e3 heq
+        have hsame : expected w.disp w.log wt' = expected w.disp w.log wt := by rw [← hw']; rfl
+        rw [hsame, ← hexp]
+        have : wt'.gDelivered ++ vis wt'.q wt'.inbox = wt.gDelivered ++ vis wt.q wt.inbox := by rw [← hw']
+        rw [this]
+        simp only [Watch.stream, vis_append, ← List.append_assoc]
+        exact ((List.prefix_append _ _).trans (List.prefix_append _ _))
+      -- no other live watch uses the entry if it is about to be dropped
+      have hother : ∀ x ∈ setAt w.watches i wt', x.released = false → s.refs ≤ 1 → x.subj ≠ s.key := by
+        intro x hx hxr hle hxs
+        have h1 := liveCount_pos hx hxr hxs
+        have h2 := hcount s.key
+        rw [if_pos hskey.symm] at h2
+        have h3 := hsi.refs
+        omega
+      refine ⟨h.rows, h.evIdx, h.qsuf, h.logIdx, ?_, ?_, ?_⟩
+      · show ((if s.refs ≤ 1 then dropSub s.key w.subs else setSub { s with refs := s.refs - 1 } w.subs).map (·.key)).Nodup
+        split
+        · exact nodup_dropSub h.keys
+        · exact nodup_setSub h.keys
+      · intro x hx
+        show SubInv w.disp w.log (setAt w.watches i wt') x
+        have hx' : x ∈ (if s.refs ≤ 1 then dropSub s.key w.subs else setSub { s with refs := s.refs - 1 } w.subs) := hx
+        split at hx'
+        · obtain ⟨hxm, hxk⟩ := mem_dropSub hx'
+          have hxi := h.subs x hxm
+          refine ⟨hxi.cache, hxi.bufOk, ?_⟩
+          have := hcount x.key; have := hxi.refs; omega
+        · next hgt =>
+          rcases mem_setSub_nodup h.keys hx' with rfl | ⟨hxm, hxk⟩
+          · refine ⟨⟨c', hc, ⟨hok.pos, hok.gD, hok.gDP, hok.gP, hok.buf, hok.batch⟩⟩, hsi.bufOk, ?_⟩
+            have h2 := hcount s.key
+            rw [if_pos hskey.symm] at h2
+            have h3 := hsi.refs
+            show liveCount (setAt w.watches i wt') s.key ≤ s.refs - 1
+            omega
+          · have hxi := h.subs x hxm
+            refine ⟨hxi.cache, hxi.bufOk, ?_⟩
+            have := hcount x.key; have := hxi.refs; omega
+      · intro x hx
+        show WatchInv w.disp w.log (if s.refs ≤ 1 then dropSub s.key w.subs else setSub { s with refs := s.refs - 1 } w.subs) x
+        rcases mem_setAt hx with rfl | hxo
+        · exact hdead
+        · apply watchInv_subs_congr (h.watches x hxo)
+          intro hxr s0 hs0
+          split
+          · next hle =>
+            rw [findSub_dropSub]
+            rw [if_neg (hother x hx hxr hle)]
+            exact ⟨s0, hs0, rfl, rfl⟩
+          · rw [findSub_setSub]
+            split
+            · next e =>
+              have : s0 = s := by
+                have : findSub x.subj w.subs = some s := by rw [← e]; exact findSub_of_mem h.keys hsmem
+                rw [this] at hs0; cases hs0; rfl
+              subst this
+              exact ⟨_, rfl, rfl, rfl⟩
+            · exact ⟨s0, hs0, rfl, rfl⟩
+    · -- already closed: nothing changes
+      have hst : (if wt.st = WState.opened then WState.unsub else wt.st) = wt.st := by rw [hunsub]; simp
+      have hw' : ({ wt with st := (if wt.st = WState.opened then WState.unsub else wt.st), released := true } : Watch) = wt := by
+        rw [hst]; cases wt; simp_all
+      simp only [hrel, if_true]
+      rw [hw', setAt_self hget]
+      exact h
+
+/-! ### all operations but `restore` -/
+
+/-- the sequence contains no snapshot restore -/
+def RestoreFree : List WOp → Prop
+  | [] => True
+  | .restore _ :: _ => False
+  | _ :: ops => RestoreFree ops
+
+theorem winv_step {w : World} (h : WInv w) (op : WOp) (hop : ∀ rs, op ≠ .restore rs) : WInv (w.step op).1 := by
+  cases op with
+  | restore rs => exact absurd rfl (hop rs)
+  | bwrite res => simp only [World.step, World.backendWrite]; exact winv_storeWrite (winv_ctr h _) _ _
+  | swrite res vsn => simp only [World.step]; exact winv_storeWrite h _ _
+  | delete id vsn => simp only [World.step]; exact winv_delete h _ _
+  | rwrite idx res =>
+    simp only [World.step, World.raftWrite]
+    split
+    · exact h
+    · exact winv_storeWrite h _ _
+  | rdelete id vsn =>
+    simp only [World.step, World.raftDelete]
+    split
+    · exact h
+    · exact winv_delete h _ _
+  | read id => exact h
+  | list q => exact h
+  | listOwner id => exact h
+  | wopen q => simp only [World.step]; exact winv_watchOpen h q
+  | wnext i => simp only [World.step]; exact winv_watchNext h i
+  | wclose i => simp only [World.step]; exact winv_watchClose h i
+  | pump => simp only [World.step]; exact winv_pump h
+  | snap => exact h
+
+theorem restoreFree_cons {op : WOp} {ops : List WOp} (h : RestoreFree (op :: ops)) :
+    (∀ rs, op ≠ .restore rs) ∧ RestoreFree ops := by
+  cases op <;> simp_all [RestoreFree]
+
+theorem winv_run : ∀ (ops : List WOp) (w : World), WInv w → RestoreFree ops → WInv (w.run ops) := by
+  intro ops
+  induction ops with
+  | nil => intro w h _; exact h
+  | cons op ops ih =>
+    intro w h hr
+    obtain ⟨h1, h2⟩ := restoreFree_cons hr
+    exact ih _ (winv_step h op h1) h2
+
+/-- what the invariant says about one watch: nothing it is entitled to is lost or reordered -/
+theorem winv_watch {w : World} (h : WInv w) (wt : Watch) (hwt : wt ∈ w.watches) :
+    wt.gD ≤ wt.gP ∧ wt.gP ≤ w.log.length ∧
+    (wt.released = false → wt.gDelivered ++ vis wt.q (wt.stream (w.bufOf wt)) = expected w.disp w.log wt) ∧
+    wt.gDelivered <+: expected w.disp w.log wt := by
+  have hwi := h.watches wt hwt
+  have hlive : wt.released = false → wt.gDelivered ++ vis wt.q (wt.stream (w.bufOf wt)) = expected w.disp w.log wt := by
+    intro hr
+    obtain ⟨s, c, hf, hc, e1, e2, e3, hpos, hsn, heq⟩ := hwi.live hr
+    have hsi := h.subs s (findSub_some hf).1
+    obtain ⟨c', hc', hok⟩ := hsi.cache
+    obtain rfl : c' = c := by rw [hc] at hc'; cases hc'; rfl
+    have : w.bufOf wt = s.buf := by simp [World.bufOf, hf]
+    rw [this]
+    exact live_expected (findSub_some hf).2 hok e1 e2 e3 heq
+  refine ⟨hwi.gDP, hwi.gP, hlive, ?_⟩
+  cases hr : wt.released with
+  | false => rw [← hlive hr]; exact List.prefix_append _ _
+  | true => exact (List.prefix_append _ _).trans (hwi.dead hr)
+
+/-! ### no stale events when the publisher has caught up at every `WatchList` -/
+
+/-- every snapshot in use was taken with nothing committed-but-undispatched -/
+def NoStale (w : World) : Prop :=
+  (∀ s ∈ w.subs, ∀ c, s.cache = some c → c.gD = c.gP) ∧ (∀ wt ∈ w.watches, wt.gD = wt.gP)
+
+/-- at every `WatchList` of the run the publish queue is empty -/
+def isWatchOpen : WOp → Bool
+  | .wopen _ => true
+  | _ => false
+
+def QuiescentOpens : World → List WOp → Prop
+  | _, [] => True
+  | w, op :: ops => (isWatchOpen op = true → w.queue = []) ∧ QuiescentOpens (w.step op).1 ops
+
+theorem noStale_commit {w : World} (h : NoStale w) (db' : DB) (e : Option Ev) : NoStale (w.commit db' e) := by
+  cases e <;> exact h
+
+theorem noStale_storeWrite {w : World} (h : NoStale w) (res : Res) (vsn : String) : NoStale (w.storeWrite res vsn).1 := by
+  simp only [World.storeWrite]; exact noStale_commit h _ _
+
+theorem noStale_delete {w : World} (h : NoStale w) (id : RID) (vsn : String) : NoStale (w.delete id vsn).1 := by
+  simp only [World.delete]; exact noStale_commit h _ _
+
+theorem noStale_step {w : World} (hi : WInv w) (h : NoStale w) (op : WOp) (hop : ∀ rs, op ≠ .restore rs)
+    (hq : ∀ q, op = .wopen q → w.queue = []) : NoStale (w.step op).1 := by
+  cases op with
+  | restore rs => exact absurd rfl (hop rs)
+  | bwrite res => simp only [World.step, World.backendWrite]; exact noStale_storeWrite (w := { w with ctr := w.ctr + 1 }) h _ _
+  | swrite res vsn => simp only [World.step]; exact noStale_storeWrite h _ _
+  | delete id vsn => simp only [World.step]; exact noStale_delete h _ _
+  | rwrite idx res =>
+    simp only [World.step, World.raftWrite]
+    split
+    · exact h
+    · exact noStale_storeWrite h _ _
+  | rdelete id vsn =>
+    simp only [World.step, World.raftDelete]
+    split
+    · exact h
+    · exact noStale_delete h _ _
+  | read id => exact h
+  | list q => exact h
+  | listOwner id => exact h
+  | snap => exact h
+  | pump =>
+    simp only [World.step, World.pump]
+    split
+    · exact h
+    · refine ⟨?_, h.2⟩
+      intro s' hs' c hc
+      obtain ⟨s, hs, rfl⟩ := List.mem_map.mp hs'
+      rw [dispatch_cache] at hc
+      exact h.1 s hs c hc
+  | wnext i =>
+    simp only [World.step]
+    cases hget : w.watches[i]? with
+    | none => rw [watchNext_none w i hget]; exact h
+    | some wt =>
+      rw [watchNext_some w i wt hget]
+      refine ⟨h.1, ?_⟩
+      intro x hx
+      rcases mem_setAt hx with rfl | hx
+      · have hmem : wt ∈ w.watches := List.mem_of_getElem? hget
+        have hwi := hi.watches wt hmem
+        have hid : (wt.next (w.bufOf wt)).1.sameId wt := by
+          rcases hwi.stRel with ⟨hopen, hrel⟩ | ⟨hunsub, hrel⟩
+          · obtain ⟨s, c, hf, hc, e1, e2, e3, hpos, hsn, heq⟩ := hwi.live hrel
+            have : w.bufOf wt = s.buf := by simp [World.bufOf, hf]
+            rw [this]
+            exact (next_open_spec wt s.buf hpos (hi.subs s (findSub_some hf).1).bufOk hsn hopen).1
+          · exact (next_unsub_spec wt _ hunsub).1
+        obtain ⟨_, _, _, _, q5, q6, _⟩ := hid
+        rw [q5, q6]; exact h.2 wt hmem
+      · exact h.2 x hx
+  | wclose i =>
+    simp only [World.step]
+    cases hget : w.watches[i]? with
+    | none => rw [watchClose_none w i hget]; exact h
+    | some wt =>
+      have hmem : wt ∈ w.watches := List.mem_of_getElem? hget
+      simp only [World.watchClose, hget]
+      refine ⟨?_, ?_⟩
+      · intro s' hs' c hc
+        simp only [] at hs'
+        split at hs'
+        · exact h.1 s' hs' c hc
+        · split at hs'
+          · exact h.1 s' hs' c hc
+          · next s hf =>
+            split at hs'
+            · exact h.1 s' (mem_dropSub hs').1 c hc
+            · rcases mem_setSub_nodup hi.keys hs' with rfl | ⟨hm, _⟩
+              · exact h.1 s (findSub_some hf).1 c hc
+              · exact h.1 s' hm c hc
+      · intro x hx
+        rcases mem_setAt hx with rfl | hx
+        · exact h.2 wt hmem
+        · exact h.2 x hx
+  | wopen q =>
+    have hq0 := hq q rfl
+    simp only [World.step, World.watchOpen]
+    generalize q.subject = ks
+    obtain ⟨key, sq⟩ := ks
+    simp only []
+    cases hf : findSub key w.subs with
+    | some s =>
+      simp only []
+      cases hc : s.cache with
+      | some c =>
+        simp only []
+        have hcc := h.1 s (findSub_some hf).1 c hc
+        refine ⟨?_, ?_⟩
+        · intro s' hs' c' hc'
+          rcases mem_setSub_nodup hi.keys hs' with rfl | ⟨hm, _⟩
+          · simp only [Option.some.injEq] at hc'; subst hc'; exact hcc
+          · exact h.1 s' hm c' hc'
+        · intro x hx
+          rcases List.mem_append.mp hx with hx | hx
+          · exact h.2 x hx
+          · simp only [List.mem_singleton] at hx; subst hx; exact hcc
+      | none =>
+        obtain ⟨c, hc', _⟩ := (hi.subs s (findSub_some hf).1).cache
+        rw [hc] at hc'; cases hc'
+    | none =>
+      simp only [hq0, List.length_nil, Nat.sub_zero]
+      refine ⟨?_, ?_⟩
+      · intro s' hs' c' hc'
+        rcases mem_setSub_nodup hi.keys hs' with rfl | ⟨hm, _⟩
+        · simp only [Option.some.injEq] at hc'; subst hc'; rfl
+        · exact h.1 s' hm c' hc'
+      · intro x hx
+        rcases List.mem_append.mp hx with hx | hx
+        · exact h.2 x hx
+        · simp only [List.mem_singleton] at hx; subst hx; rfl
+
+theorem noStale_run : ∀ (ops : List WOp) (w : World), WInv w → NoStale w → RestoreFree ops → QuiescentOpens w ops →
+    NoStale (w.run ops) := by
+  intro ops
+  induction ops with
+  | nil => intro w _ h _ _; exact h
+  | cons op ops ih =>
+    intro w hi h hr hq
+    obtain ⟨h1, h2⟩ := restoreFree_cons hr
+    exact ih _ (winv_step hi op h1) (noStale_step hi h op h1 (fun q e => hq.1 (by rw [e]; rfl))) h2 hq.2
+
+/-! ### reads reflect every committed event -/
+
+/-- the value of resource `k` after one more committed event -/
+def stepLast (k : Bytes) (v : Option Res) (e : Ev) : Option Res :=
+  match e.ev with
+  | .upsert r => if idKey r.id = k then some r else v
+  | .delete r => if idKey r.id = k then none else v
+  | .eos => v
+
+/-- the event is about resource `k` -/
+def onKey (k : Bytes) (e : Ev) : Bool :=
+  match e.ev.res? with
+  | some r => idKey r.id = k
+  | none => false
+
+theorem lookup_foldl_applyEv (k : Bytes) :
+    ∀ (log : List Ev) (rows : Rows), lookup k (log.foldl applyEv rows) = log.foldl (stepLast k) (lookup k rows) := by
+  intro log
+  induction log with
+  | nil => intro rows; rfl
+  | cons e es ih =>
+    intro rows
+    simp only [List.foldl_cons, ih]
+    congr 1
+    simp only [applyEv, stepLast]
+    cases e.ev with
+    | upsert r => simp only [lookup_upsert']
+    | delete r => simp only [lookup_remove']; split <;> grind
+    | eos => rfl
+
+theorem stepLast_onKey {k : Bytes} {e : Ev} (h : onKey k e = true) (v v' : Option Res) : stepLast k v e = stepLast k v' e := by
+  simp only [onKey, WEv.res?] at h
+  simp only [stepLast]
+  cases he : e.ev with
+  | upsert r => simp_all
+  | delete r => simp_all
+  | eos => simp_all
 
 end CV.Res
